@@ -281,7 +281,11 @@ func negotiateFeatures(ctx context.Context, s *Session, first, ws bool, features
 
 		// If we negotiated a required feature or a stream restart is required
 		// we're done with this feature set.
-		if rw != nil || data.req {
+		// The same is true if the feature itself completed the session (as
+		// resource binding does): anything negotiated afterwards, in particular
+		// something that asks for a stream restart, would be negotiated on a
+		// session that is already reported as established.
+		if rw != nil || data.req || mask&Ready == Ready {
 			break
 		}
 	}
